@@ -62,6 +62,7 @@ def interpolate_faces_to_vertices(
     """
     weight = weight.lower()
     check_argument("weight", weight, str, {'uniform', 'area', 'angle', 'sum'})
+    vattr.clear() # the result overwrites what the output attribute held before (as in interpolate_vertices_to_faces)
 
     if weight in ("uniform", 'sum'):
         for v in mesh.id_vertices:
@@ -145,6 +146,7 @@ def average_corners_to_vertices(
     """
     weight = weight.lower()
     check_argument("weight", weight, str, {'uniform', 'angle', 'sum'})
+    vattr.clear() # the result overwrites what the output attribute held before
     
     if weight == "uniform":
         count = np.zeros(len(mesh.vertices))
@@ -222,6 +224,7 @@ def average_corners_to_faces(
     """
     weight = weight.lower()
     check_argument("weight", weight, str, ['uniform', 'angle', 'sum'])
+    fattr.clear() # the result overwrites what the output attribute held before
 
     if weight == "uniform":
         for F in mesh.id_faces:
